@@ -7,6 +7,7 @@ ID = "C22"
 LEAN_TARGETS = ["TornadoModel.C22.Props"]
 THEOREMS = ["TornadoModel.C22." + n for n in [
     "strip_anchors_identity", "strip_anchors_labels", "shorten_label_prefix", "label_eq_url", "href_safe", "linkParts_some",
+    "entity_not_split", "wfMatch_escapeSafe", "escapeSafe_dropCutEntity", "entity_split_before_fix",
 ]]
 TRUSTED = [
     "CPython's regex engine on _URL_RE: the match list (span, group 2, group 3) is data taken from "
